@@ -3,7 +3,7 @@
   `stale`, `procReqErr`, `seenReqHdr`, `draining` alone and can only switch `attached` on (the bookkeeping around
   the call — `procEv`/`procDone` — is what updates them).
 -/
-import MitmVerif.Lemmas.C03Inv
+import MitmVerif.Lemmas.C03Base
 namespace MitmVerif.C03
 
 def Frame (d : Core) (w : W) : Prop :=
